@@ -710,6 +710,9 @@ func (ex *Exec) doReturn(st *State, fr *Frame, res Value) {
 
 type intrinsic func(ex *Exec, st *State, args []Value, site ssa.CallInstruction) Value
 
+// notHandled is returned by intrinsics that decline a call: the real body is interpreted.
+type notHandled struct{}
+
 // pushed is returned by intrinsics that pushed a frame instead of producing a value.
 type pushed struct{}
 
@@ -778,8 +781,10 @@ func (ex *Exec) callValue(st *State, fn FuncV, args []Value, retTo ssa.Value, si
 		if _, ok := res.(pushed); ok {
 			return
 		}
-		finish(res)
-		return
+		if _, skip := res.(notHandled); !skip {
+			finish(res)
+			return
+		}
 	}
 	if h := ex.harnessIntrinsic(f); h != nil {
 		finish(h(ex, st, args, site))
